@@ -71,8 +71,8 @@ func main() {
 	r.Assumptions = []string{"validity of each reference path in the alphabet is tagged by construction from the distribution grammar, not recomputed",
 		"whitespace-only blob policy names are excluded (the statement does not say whether they count as 'no name')"}
 	rng := r.Rand("docs")
-	nDocs := r.N(400, 6000)
-	nVerify := r.N(150, 2000)
+	nDocs := r.N(400, 15000)
+	nVerify := r.N(150, 6000)
 
 	signer := lib.SimpleChain("c08", 0, "EC-256", 0)
 	desc := lib.Desc(ocispec.MediaTypeImageManifest, []byte("c08"))
@@ -262,7 +262,7 @@ func main() {
 	blob := []byte("c08 blob")
 	blobPayload := lib.Payload(lib.Desc("text/plain", blob))
 	blobSig := lib.MustCoreSign(lib.SignSpec{Format: lib.MediaJWS, Payload: blobPayload, Signer: signer})
-	nBlob := r.N(300, 5000)
+	nBlob := r.N(300, 20000)
 	lib.Parallel(nBlob, 16, func(i int) {
 		rg := r.Rand(fmt.Sprintf("blob-%d", i))
 		k := 1 + rg.Intn(4)
